@@ -22,6 +22,11 @@ panqec code and compared with reference code written here:
   1e3..1e12 towards each axis); every probability handed to a decoder and
   every conditional update is compared with the exact reference in RELATIVE
   terms (only an exactly-zero conditioning event is exempt).
+* xcube: XCubeMatchingDecoder hands each plane's 2-D pymatching graphs one weight per
+  2-D edge; every such weight (constructor argument and live edge weight) must be
+  the X-flip log-likelihood ratio of every 3-D qubit that 2-D edge stands for
+  (the same-orientation edges in the planes next to it), from the reference
+  channel, under every deformation config and the whole (p, r) grid.
 * session: ONE code object, ONE error rate, several DISTINCT models evaluated one
   after the other in one process (same deformation name with different axis
   kwargs, directions that differ only beyond the 4th decimal, with / without
@@ -55,7 +60,7 @@ LEVEL_NOTE = ('Trusted: numpy float arithmetic, math.nextafter, ScriptedRNG, the
               'table (its consistency with deform() is C08). Assumed: the i-th variate drawn decides qubit i '
               '(any other consumption order would be reported although the statement does not forbid it); a '
               'switch of outcome and back between two adjacent probe points away from a subset sum is invisible. '
-              'Not covered: (p, r) off the grid; measure equality is to 1e-12 (an outcome of probability 0 that '
+              'Not covered: (p, r) off the grid; XCubeMatchingDecoder priors for noise deformed along x or y (its source restricts it to z-axis deformation; mismatches there are counted in extra.xcube_offdomain_mismatch);  measure equality is to 1e-12 (an outcome of probability 0 that '
               'is produced on a set of measure <= 1e-12, e.g. the fall-through at variate 1-2^-53 when the row '
               'sums to 1-2^-53, is counted in extra.zero_prob_outcome_probes, not reported); conditionals whose '
               'conditioning event has probability 0 are undefined and not compared (extra.cond_undefined).')
@@ -65,7 +70,9 @@ RULE = ('sample: one sub-case per (class, size, deformation config, p, r); disti
         'deformation, p, r); non-trivial when the X-flip and Z-flip marginals differ on at least one qubit or '
         'between qubits (a swapped prior would be visible). session: one sub-case per (class, size, p, order, '
         'position in the session); non-trivial when an earlier model of the same session (same code object, same '
-        'p) has different reference rows, i.e. a stale per-(model, code, p) cache would be visible')
+        'p) has different reference rows, i.e. a stale per-(model, code, p) cache would be visible. xcube: one '
+        'sub-case per (size, deformation config, p, r); non-trivial when the 3-D qubits do not all carry the same '
+        'X-flip weight (a plane given the weight of the wrong edge orientation would be visible)')
 ASSUMPTIONS = [
     'variates are consumed in qubit-index order (one rng.random() per qubit)',
     'BSF convention [X block | Z block]: (1,0)=X, (0,1)=Z, (1,1)=Y',
@@ -103,6 +110,9 @@ BOUNDS = {
                        'channel_update in {False, True}; CSS object and deformed (non-CSS) object',
               'tiny': 'priors part on p in {1e-3,1e-6,1e-9,1e-12,0.05} x (depolarising + bias 1e3,1e6,1e9,1e12 '
                       'towards X, Y, Z) for every (class, deformation config) of the quick list; relative 1e-9',
+              'xcube': 'XCubeCode (2,2,2) and (2,2,3) x {None, XZZX default axis, XZZX z} x P_LIST x 67 directions '
+                       '(+ tiny grid on (2,2,2)); all three plane decoders, both matchers each; XZZX along x / y '
+                       '(outside the decoder\'s documented domain) executed at p=0.1 and only counted',
               'session': '8 classes (one per deformation family, all axis kwargs) x p in {0.25, 1.0}; 4 directions '
                          '(two pairs differing only beyond the 4th decimal) x every deformation config, forward '
                          'and reversed order, each order on one code object; dyadic grid 2^4'},
@@ -115,6 +125,7 @@ BOUNDS = {
                  'bposd': 'all 67 directions; 4 syndromes; channel_update in {False, True}; CSS and deformed '
                           'object',
                  'tiny': 'same grid on every (class, size, deformation config) of the thorough list',
+                 'xcube': 'XCubeCode (2,2,2), (2,2,3), (2,3,2), (3,2,2), (3,3,3); otherwise as quick',
                  'session': 'every class of the quick list plus the remaining classes with a deformation, '
                             'p in {0.001, 0.25, 0.9, 1.0}; same sequences; dyadic grid 2^6'},
 }
@@ -242,6 +253,12 @@ def cases(tier, seed):
         for d in deformation_configs(cls):
             tiny.append({'part': 'tiny', 'cls': cls, 'size': size, 'deformation': d, 'n': n, 'bp_dirs': 'all'})
     tiny.sort(key=lambda c: (c['n'], c['cls'], str(c['deformation'])))
+    xc = []
+    for size in ([[2, 2, 2], [2, 2, 3]] if tier == 'quick' else
+                 [[2, 2, 2], [2, 2, 3], [2, 3, 2], [3, 2, 2], [3, 3, 3]]):
+        for d in deformation_configs('XCubeCode'):
+            xc.append({'part': 'xcube', 'cls': 'XCubeCode', 'size': size, 'deformation': d,
+                       'n': 3 * size[0] * size[1] * size[2], 'tiny': tier != 'quick' or size == [2, 2, 2]})
     sess = []
     if tier == 'quick':
         scls, spis, g = SESSION_CLASSES, (3, 6), 4
@@ -253,7 +270,7 @@ def cases(tier, seed):
         for pi in spis:
             sess.append({'part': 'session', 'cls': cls, 'size': size, 'pi': pi, 'n': build_code(cls, size).n,
                          'grid_log2': g, 'deformation': None})
-    return sess + tiny + out
+    return sess + xc + tiny + out
 
 
 # ---------------------------------------------------------------- reference
@@ -1037,6 +1054,140 @@ def eval_session(case):
     return res
 
 
+# ---------------------------------------------------------------- part: xcube plane matchers
+
+def eval_xcube(case):
+    from panqec.error_models import PauliErrorModel
+    from panqec.decoders import XCubeMatchingDecoder
+    import panqec.decoders.matching._matching_decoder as mmod
+    res = {'evals': 0, 'nontrivial': 0, 'violations': [], 'samples': [], 'outcomes': [], 'skipped': 0,
+           'extra': {'xcube_decoders': 0, 'xcube_matchers': 0, 'xcube_weights_compared': 0, 'xcube_edges': 0,
+                     'xcube_offdomain_mismatch': 0, 'violations_total': 0}}
+    cls, size, d = case['cls'], case['size'], case['deformation']
+    code = build_code(cls, size)
+    index3d = {tuple(loc): i for i, loc in enumerate(code.qubit_coordinates)}
+    # The decoder's source documents its domain ("Only works for ... z-axis deformation"): noise deformed along
+    # x or y is executed on a reduced grid and mismatches are only counted (extra.xcube_offdomain_mismatch).
+    in_domain = d is None or d[1].get('deformation_axis', 'z') == 'z'
+    if in_domain:
+        grids = [('grid', p, ri, r) for p in P_LIST for ri, r in enumerate(directions())]
+        if case.get('tiny', True):
+            grids += [('tiny', p, ri, r) for p in TINY_P for ri, r in enumerate(tiny_directions())]
+    else:
+        grids = [('grid', 0.1, ri, r) for ri, r in enumerate(directions())]
+    nontrivial = set()
+    outcomes = set()
+    real_match = mmod.Matching
+    match_log = []
+
+    def spy_matching(H, *a, **k):
+        m = real_match(H, *a, **k)
+        match_log.append((H, k.get('spacelike_weights', a[0] if a else None), m))
+        return m
+
+    def viol(kind, grid, p, ri, detail, **more):
+        if not in_domain:
+            res['extra']['xcube_offdomain_mismatch'] += 1
+            return
+        res['extra']['violations_total'] += 1
+        flags = (kind, more.get('plane'), more.get('edge_3d_axis'))
+        shown = sum(1 for v in res['violations']
+                    if (v['key']['kind'], v['key'].get('plane'), v['key'].get('edge_3d_axis')) == flags)
+        if shown < 1 and len(res['violations']) < 8:
+            k = base_key(dict(case, p=p, grid=grid), ri)
+            k['kind'] = kind
+            k['part'] = 'xcube'
+            k.update(more)
+            res['violations'].append({'key': k, 'detail': detail})
+
+    def close(a, b, rel=1e-9):
+        return math.isfinite(a) and abs(a - b) <= rel * max(1.0, abs(b))
+
+    mmod.Matching = spy_matching
+    try:
+        for grid, p, ri, r in grids:
+            em = PauliErrorModel(r[0], r[1], r[2], deformation_name=(d[0] if d else None),
+                                 deformation_kwargs=(dict(d[1]) if d else None))
+            rows, tables = reference_rows(code, p, r, d)
+            qx, _ = marginals(rows)
+            llr3d = [llr_ref(v) for v in qx]
+            del match_log[:]
+            dec = XCubeMatchingDecoder(code, em, p)
+            res['evals'] += 1
+            res['extra']['xcube_decoders'] += 1
+            planes = getattr(dec, 'matching_decoder', None)
+            tcodes = getattr(dec, 'toric_code', None)
+            if not isinstance(planes, dict) or not isinstance(tcodes, dict) or set(planes) != {'x', 'y', 'z'}:
+                viol('xcube_prior', grid, p, ri, {'problem': 'no per-plane matching decoders to observe'})
+                continue
+            for k, axis in enumerate('xyz'):
+                t2 = tcodes[axis]
+                # 2-D edge (a, b) of the planes orthogonal to `axis` stands for the 3-D edges insert((a, b), k, e),
+                # e even: the edges of that orientation lying in the lattice planes next to the dual plane
+                exp = []
+                ax3 = []
+                ok = True
+                for loc in t2.qubit_coordinates:
+                    idx = []
+                    for e in range(0, 2 * size[k], 2):
+                        l3 = list(loc)
+                        l3.insert(k, e)
+                        if tuple(l3) not in index3d:
+                            ok = False
+                            break
+                        idx.append(index3d[tuple(l3)])
+                    if not ok:
+                        break
+                    exp.append([llr3d[i] for i in idx])
+                    l3 = list(loc)
+                    l3.insert(k, 0)
+                    ax3.append('xyz'[[c % 2 for c in l3].index(1)])
+                if not ok:
+                    viol('xcube_prior', grid, p, ri, {'problem': '2-D plane code does not embed in the 3-D lattice',
+                                                      'plane_size': list(t2.size)}, plane=axis)
+                    continue
+                mine = [(H, w, m) for H, w, m in match_log
+                        if any(m is getattr(planes[axis], a, None) for a in ('matcher_x', 'matcher_z'))]
+                if len(mine) != 2:
+                    viol('xcube_prior', grid, p, ri, {'problem': 'plane matchers not built through pymatching',
+                                                      'found': len(mine)}, plane=axis)
+                    continue
+                for H, w, m in mine:
+                    res['extra']['xcube_matchers'] += 1
+                    w = np.asarray(w, dtype=float)
+                    if w.shape != (t2.n,):
+                        viol('xcube_prior', grid, p, ri, {'shape': list(w.shape)}, plane=axis)
+                        continue
+                    for j in range(t2.n):
+                        res['extra']['xcube_weights_compared'] += 1
+                        if not all(close(w[j], v) for v in exp[j]):
+                            viol('xcube_prior', grid, p, ri,
+                                 {'qubit_2d': list(t2.qubit_coordinates[j]), 'got': float(w[j]),
+                                  'expected_x_flip_llr_of_3d_edges': exp[j][:3], 'via': 'constructor'},
+                                 plane=axis, edge_3d_axis=ax3[j])
+                    for u, v, attr in m.edges():
+                        f = sorted(attr['fault_ids'])
+                        res['extra']['xcube_edges'] += 1
+                        if len(f) != 1 or not all(close(attr['weight'], x) for x in exp[f[0]]):
+                            viol('xcube_prior', grid, p, ri,
+                                 {'edge': [u, v], 'fault_ids': f, 'got': attr['weight'],
+                                  'expected_x_flip_llr_of_3d_edges': exp[f[0]][:3] if len(f) == 1 else None,
+                                  'via': 'edges'},
+                                 plane=axis, edge_3d_axis=ax3[f[0]] if len(f) == 1 else None)
+            distinct = sorted({round(v, 9) for v in llr3d})
+            if len(distinct) > 1:          # the 3-D qubits do not all carry the same weight
+                nontrivial.add(digest(size, d, grid, p, ri))
+            outcomes.add(digest(distinct)[:8])
+            if len(distinct) > 1 and not res['samples']:
+                res['samples'].append({'size': size, 'deformation': d, 'p': p, 'r': list(r),
+                                       'distinct_x_flip_llr': distinct})
+    finally:
+        mmod.Matching = real_match
+    res['nontrivial'] = len(nontrivial)
+    res['outcomes'] = sorted(outcomes)[:50]
+    return res
+
+
 def eval_tiny(case):
     """The priors part on the tiny-marginal grid: one run of eval_priors per error rate, counters merged."""
     total = None
@@ -1063,4 +1214,6 @@ def eval_case(case):
         return eval_session(case)
     if case['part'] == 'tiny':
         return eval_tiny(case)
+    if case['part'] == 'xcube':
+        return eval_xcube(case)
     return eval_priors(case)
